@@ -163,6 +163,15 @@ impl TypedProgram {
                 let n = resolve_const_expr_unsigned(&const_def.value, &consts_unsigned, USIZE_BITS);
                 const_sizes.insert(const_name.clone(), n as usize);
                 consts_unsigned.insert(const_name.clone(), n);
+            } else if let Type::Unsigned(_) = const_def.ty {
+                // Consts of the other number types can also be used in later const expressions.
+                let bits = const_def.ty.size_in_bits_for_defs(self, &const_sizes);
+                let n = resolve_const_expr_unsigned(&const_def.value, &consts_unsigned, bits);
+                consts_unsigned.insert(const_name.clone(), n);
+            } else if let Type::Signed(_) = const_def.ty {
+                let bits = const_def.ty.size_in_bits_for_defs(self, &const_sizes);
+                let n = resolve_const_expr_signed(&const_def.value, &consts_signed, bits);
+                consts_signed.insert(const_name.clone(), n);
             }
         }
 
